@@ -1,4 +1,5 @@
 """C04 — read and write scopes are enforced on every connection"""
+from lagcommon import LagMode, LAG_RULE
 from hubcommon import HubMode
 from relaycommon import RelayMode
 
@@ -9,8 +10,10 @@ ASSUMPTIONS = ["capabilities are derived once at admission from the exact string
                "the queue side of readPump/writePump is emulated by the in-package harness; the real pumps run in mode relay"]
 P = "Relay.Props.C04"
 THEOREMS = [(f"Hub.{n}", P) for n in ["nonwriter_silent", "sent_grows_only_by_writers", "nonreader_deaf", "caps_fixed",
-                                      "no_scope_no_admission", "scopes_only_read_write"]] + [("Hub.run_inv", "Relay.Props.HubInv")]
+                                      "no_scope_no_admission", "scopes_only_read_write", "pumps_guard_scopes"]] + [("Hub.run_inv", "Relay.Props.HubInv")]
+RULE = RULE + LAG_RULE
+
 
 
 def modes(tier):
-    return [HubMode("C04"), RelayMode("C04")]
+    return [HubMode("C04"), RelayMode("C04"), LagMode("C04")]
